@@ -137,7 +137,7 @@ def gen_matrix(rng, N, alphabet=None, symmetric=True, tie_free=False):
     return D
 
 
-def gen_instance(rng, nmax=10, nu=0, m=0, tie_free=False, kinds=("feat", "mat", "lattice", "feat", "mat", "lattice", "tiny", "sparse", "literal", "gridcut", "gridcut", "zeroarcs")):
+def gen_instance(rng, nmax=10, nu=0, m=0, tie_free=False, kinds=("feat", "mat", "lattice", "feat", "mat", "lattice", "tiny", "sparse", "literal", "gridcut", "gridcut", "zeroarcs", "bootstrap", "tiny")):
     kind = rng.choice(kinds)
     if kind in ("gridcut", "zeroarcs") and tie_free:
         kind = "feat"
@@ -167,6 +167,39 @@ def gen_instance(rng, nmax=10, nu=0, m=0, tie_free=False, kinds=("feat", "mat", 
             labels[order[-1] % n] = (labels[0] + 1) % 2 if max(labels) < 1 else [l for l in range(max(labels) + 1) if l != labels[0]][0]
         labels = [sorted(set(labels)).index(l) for l in labels]
         return Instance("zeroarcs", None, labels, D, nu, m, None)
+    if kind == "bootstrap":
+        # a resample with replacement over a pre-computed matrix: one or two samples occur twice (distance 0 between the two
+        # copies, identical rows, same label); embed_matrix lets the copies share one row index
+        for _ in range(20):
+            n0 = rng.randint(3, max(3, nmax - 2))
+            base = gen_matrix(rng, n0, None, tie_free=True)
+            lab0 = gen_labels(rng, n0)
+            extra_ = [rng.randrange(n0) for _ in range(rng.randint(1, 2))]
+            src = list(range(n0)) + extra_
+            rng.shuffle(src)
+            n = len(src)
+            N = n + nu + m
+            D = [[0.0] * N for _ in range(N)]
+            tail = gen_matrix(rng, N, None, tie_free=True)
+            for a in range(N):
+                for b in range(N):
+                    if a < n and b < n:
+                        D[a][b] = 0.0 if src[a] == src[b] else base[src[a]][src[b]]
+                    elif a != b:
+                        # unlabeled / query points: their own distinct weights, copies of a sample see them alike
+                        ra, rb = (src[a] if a < n else n0 + a), (src[b] if b < n else n0 + b)
+                        D[a][b] = tail[min(ra, N - 1) if ra < N else a][min(rb, N - 1) if rb < N else b] if False else tail[a][b]
+            # make copies agree on their distances to the other points
+            for a in range(n):
+                for b in range(a):
+                    if src[a] == src[b]:
+                        for c_ in range(n, N):
+                            D[a][c_] = D[b][c_]; D[c_][a] = D[c_][b]
+            labels = [lab0[j] for j in src]
+            if len(set(labels)) >= 2:
+                labels = [sorted(set(labels)).index(l) for l in labels]
+                return Instance("bootstrap", None, labels, D, nu, m, None)
+        kind = "mat"
     if kind == "nondiss":
         # a "distance" that is not a dissimilarity (gaussian: d(x, x) = 1 is its LARGEST value); the scan rule of C03 is about
         # whatever function the model was given. Queries include exact copies of training rows.
